@@ -12,6 +12,7 @@ import (
 	"bufio"
 	"bytes"
 	"context"
+	"errors"
 	"fmt"
 	"net"
 	"os"
@@ -27,17 +28,29 @@ import (
 )
 
 type c12RaceStore struct {
-	mu   sync.Mutex
-	vals [][]byte
+	mu     sync.Mutex
+	key    string   // the session key of this iteration
+	vals   [][]byte // every ATTEMPT on that key, in arrival order (failed ones included)
+	failAt int      // fault plan: the attempt with this index fails with a transient error (-1: none)
+	bad    string
 }
+
+var errC12Race = errors.New("c12: database is locked (injected)")
 
 func (s *c12RaceStore) Put(_ context.Context, ns, key string, v []byte) error {
 	if ns != opdb.NamespaceIPoESessions {
 		return nil
 	}
 	s.mu.Lock()
+	defer s.mu.Unlock()
+	if key != s.key {
+		s.bad = "write to key " + key + " while " + s.key + " is checkpointed"
+		return nil
+	}
 	s.vals = append(s.vals, append([]byte(nil), v...))
-	s.mu.Unlock()
+	if len(s.vals)-1 == s.failAt {
+		return errC12Race
+	}
 	return nil
 }
 func (s *c12RaceStore) Delete(context.Context, string, string) error      { return nil }
@@ -57,7 +70,7 @@ func c12RaceCase(n int) string {
 		bg.Add(1)
 		go func(g int) {
 			defer bg.Done()
-			k := string(rune('a' + g))
+			k := []string{"a", "b", "c", "d", "s000", "s001"}[g] // the sessions' own keys too, in ANOTHER namespace
 			for {
 				select {
 				case <-stop:
@@ -70,9 +83,17 @@ func c12RaceCase(n int) string {
 	}
 	defer func() { close(stop); bg.Wait() }()
 	for it := 0; it < n; it++ {
-		sess := &SessionState{SessionID: "s1", MAC: net.HardwareAddr{2, 0, 0, 0, 0, 1}, Hostname: "old"}
+		// two sessions whose keys differ in the last character only, in turn; fault plan: every 5th overlap the first
+		// attempt fails, every other 5th the second one
+		sess := &SessionState{SessionID: fmt.Sprintf("s00%d", it%2), MAC: net.HardwareAddr{2, 0, 0, 0, 0, 0x10}, OuterVLAN: 100,
+			InnerVLAN: uint16(10 + it%2), Hostname: "old"}
 		st.mu.Lock()
 		st.vals = st.vals[:0]
+		st.key = sess.SessionID
+		st.failAt = -1
+		if it%5 >= 3 {
+			st.failAt = it%5 - 3
+		}
 		st.mu.Unlock()
 		var wg sync.WaitGroup
 		wg.Add(2)
@@ -89,12 +110,22 @@ func c12RaceCase(n int) string {
 		close(start)
 		wg.Wait()
 		// a synchronous write of the same key is ordered after both asynchronous ones
-		c.checkpointWriter().Put(context.Background(), opdb.NamespaceIPoESessions, "s1", []byte("BARRIER"))
+		c.checkpointWriter().Put(context.Background(), opdb.NamespaceIPoESessions, sess.SessionID, []byte("BARRIER"))
 		st.mu.Lock()
-		stale := len(st.vals) == 3 && bytes.Contains(st.vals[1], []byte(`"Hostname":"old"`))
+		// the last attempt before the barrier carries the image marshalled last — whether or not an attempt failed (a
+		// repetition of a failed attempt inside its slot keeps that order too)
+		n := len(st.vals)
+		stale := n >= 3 && bytes.Contains(st.vals[n-2], []byte(`"Hostname":"old"`))
+		bad := st.bad
+		if bad == "" && (n < 3 || string(st.vals[n-1]) != "BARRIER") {
+			bad = fmt.Sprintf("%d attempts, barrier not last", n)
+		}
 		st.mu.Unlock()
 		if stale {
 			return "stale=yes"
+		}
+		if bad != "" {
+			return "stale=no BAD:" + strings.ReplaceAll(bad, " ", "_")
 		}
 	}
 	return "stale=no"
